@@ -128,6 +128,7 @@ def run(ck):
     ck.rule("A", "prover and verifier agree on FRI layer count, position folding and per-layer domain reduction")
     c15.remainder_exemption(ck, prog)
     c15.agreement(ck, prog)
+    c15.remainder_sent(ck, prog)
     cols_rule(ck, prog)
     from . import width
     width.run(ck, prog)   # a proof of an ordinary legal configuration survives serialization: no length prefix truncates
